@@ -399,6 +399,9 @@ def write_evidence(ctx, coverage, assumptions, level="proof"):
     os.makedirs(os.path.join(VERIF, "evidence"), exist_ok=True)
     axioms, closed = summarize_assumptions(ctx.assumptions_text)
     cov = dict(coverage)
+    if level not in ("exploration", "fault_enumeration", "model_checking", "proof", "translation_validation", "other"):
+        cov["level_detail"] = level          # free text does not belong into the enum field
+        level = "proof"
     cov.setdefault("obligations", ctx.obligations)
     cov.setdefault("discharged", ctx.discharged)
     cov.setdefault("checker_cmd", " ; ".join(ctx.checker_cmds) or "coqc")
